@@ -333,11 +333,24 @@ def run_adaptive(case):
     if case.get("extra", 0) and not out.violations:
         # query at one stop, continue the SAME object with larger limits, query again: the publicly exposed points and
         # weights and the component sums must describe the NEW stop
+        # depth guard as in the first stage: a targeted tape halves one interval per step and would refine below double
+        # precision (the library's own start < mid < end assertion) if the continuation added 40-80 single-point steps
+        orig_refine = sa.refine
+        cont_steps = [0]
+
+        def capped_refine():
+            if st_["steps"] + cont_steps[0] >= 40:
+                raise drive.StopHistory()
+            cont_steps[0] += 1
+            orig_refine()
+        sa.refine = capped_refine
         with drive.quiet():
             try:
                 res = sa.continue_adaptive_refinement(tol=-1, max_evaluations=int(res[6][-1]) + int(case["extra"]))
             except drive.StopHistory:
                 res = None
+            finally:
+                sa.refine = orig_refine
         if res is None:
             out.cls("ended-by-step-cap")
             return out
